@@ -2236,6 +2236,11 @@ func ConcreteNextHopProto(e *aft.Afts_NextHop) (*aftpb.Afts_NextHopKey, error) {
 	}, nhproto); err != nil {
 		return nil, fmt.Errorf("cannot marshal next-hop index %d, %v", e.GetIndex(), err)
 	}
+	// protomap does not populate boolean wrapper fields when mapping paths
+	// back to the protobuf, so carry pop-top-label over explicitly.
+	if e.PopTopLabel != nil {
+		nhproto.PopTopLabel = &wpb.BoolValue{Value: e.GetPopTopLabel()}
+	}
 	return &aftpb.Afts_NextHopKey{
 		Index:   *e.Index,
 		NextHop: nhproto,
